@@ -54,6 +54,19 @@ def handleOde (j : Json) : Except String Json := do
     ("triples", Json.arr ((csrTriples c).map fun t => Json.arr #[(t.1:Nat), (t.2.1:Nat), emittedJson t.2.2]).toArray),
     ("pattern", Json.arr ((pattern inp).map natsJson).toArray)]
 
+def handleOverride (j : Json) : Except String Json := do
+  let mods ← (← (← j.getObjVal? "mods").getArr?).toList.mapM fun m => do
+    let k ← (← m.getArrVal? 0).getInt?
+    let v ← (← m.getArrVal? 1).getStr?
+    pure (k, v)
+  let idxs ← (← (← j.getObjVal? "idxs").getArr?).toList.mapM (·.getInt?)
+  let stmts ← (← (← j.getObjVal? "stmts").getArr?).toList.mapM fun s => do
+    let g := (← s.getArrVal? 0).getStr?.toOption
+    let r ← (← s.getArrVal? 1).getStr?
+    pure (RateStmt.mk g r)
+  let out := applyOverrides mods idxs stmts
+  pure <| Json.arr (out.map fun s => Json.arr #[(match s.guard with | some g => Json.str g | none => Json.null), s.rhs]).toArray
+
 def handle (line : String) : String :=
   match Json.parse line with
   | .error e => (Json.mkObj [("error", s!"json: {e}")]).compress
@@ -62,6 +75,7 @@ def handle (line : String) : String :=
       let cmd ← (← j.getObjVal? "cmd").getStr?
       match cmd with
       | "ode" => handleOde j
+      | "override" => handleOverride j
       | _ => throw s!"unknown cmd {cmd}"
     match r with
     | .ok v => v.compress
